@@ -89,6 +89,7 @@ func DeleteTopicMetrics(cluster, topic string) {
 	// Not strictly necessary as Kafka will delete the consumer groups, which will eventually trigger DeleteConsumerMetrics
 	consumerPartitionLagGauge.DeletePartialMatch(labels)
 	consumerPartitionCurrentOffset.DeletePartialMatch(labels)
+	partitionStatusGauge.DeletePartialMatch(labels)
 	consumerTotalLagGauge.DeletePartialMatch(labels)
 	consumerStatusGauge.DeletePartialMatch(labels)
 }
